@@ -117,7 +117,7 @@ def pair_jobs(tier, cores):
     return striped("pairstall", n, 0, min(cores, 12))
 
 
-for _p in ("C02", "C03", "C04", "C05", "C11", "C12"):
+for _p in ("C01", "C02", "C03", "C04", "C05", "C11", "C12"):
     PLANS[_p]["jobs"] = multi(PLANS[_p]["jobs"], pair_jobs)
 
 # C12: the twins must report equal counts after concurrent use (quiescent Size/Count exactness on the twin flavours)
@@ -129,7 +129,7 @@ def oppair_jobs(tier, cores):
     return striped("oppair", 1, 0, 8)
 
 
-for _p in ("C01", "C02", "C03", "C04", "C05", "C06", "C09", "C12"):
+for _p in ("C01", "C02", "C03", "C04", "C05", "C06", "C08", "C09", "C12"):
     PLANS[_p]["jobs"] = multi(PLANS[_p]["jobs"], oppair_jobs)
 
 # C13: the deterministic schedule enumerations also detect calls that never return
@@ -137,3 +137,12 @@ PLANS["C13"]["jobs"] = multi(PLANS["C13"]["jobs"], pair_jobs, oppair_jobs)
 
 # C05: user-function invocation counts across grow-triggering retries, sequentially (deterministic)
 PLANS["C05"]["jobs"] = multi(PLANS["C05"]["jobs"], simple("seqmap", (300, 0), (20000, 0), stripes_q=4), seq_plan((400, 8), (20000, 100)))
+
+
+# code paths that only exist for very large tables (one sequential pass over >2^17 buckets per flavour)
+def huge_jobs(tier, cores):
+    return striped("seqmap", 1, 0, 3, "huge")
+
+
+for _p in ("C03", "C04", "C11"):
+    PLANS[_p]["jobs"] = multi(PLANS[_p]["jobs"], huge_jobs)
